@@ -185,6 +185,7 @@ func Main() {
 		lap("byzProposer")
 		byzVotes(r)
 		voteRounds(r)
+		syncingFlood(r)
 		lap("byzVotes")
 	}
 	if only == "" || only == "proc" {
